@@ -34,7 +34,7 @@ RULE = ("pair generator (open loop, tolerant ops): handshake, then transfers in 
         "random points / clock jumps past RTO, delayed-ACK and inactivity timers / reads of random sizes; "
         "non-trivial = at least 3 polls and at least one byte read by an application; distinct = distinct case line")
 
-KNOWN_IDS = ("KF1", "D17")
+KNOWN_IDS = ("KF1",)
 
 
 def gen(rng, tier):
@@ -84,14 +84,18 @@ def open_ids(kf):
     return {e.get("id"): e for e in kf.get("open", [])}
 
 
+# D17 (a data segment retransmitted from the un-truncated ring in the poll that finds the message channel closed) is
+# repaired (known_findings.json `fixed`, theorem c01_pair_channel_closed_regression): no class explains a failure of
+# c01_pair_ok after a channel close any more.  Its former witness is a fixed case of the component pair_sockdrop.
 CLASSIFIERS = [
     ("KF1", "c01_kf1_class",
      "an MTU probe was popped and re-segmented under the same sequence number although a copy of it had reached "
      "(or later reached) the peer: the receiver appends overlapping bytes"),
-    ("D17", "c01_d17_class",
-     "a data segment retransmitted after the endpoint's message channel was closed: process_all_incoming_messages "
-     "returned before truncate_front, the payload is cut from the wrong place of the ring"),
 ]
+
+# the former witness of D17 on the real code (the op list of Pair_Proofs.d17_pair_ops under CUBIC)
+D17_CASE = ("pair 1 576 576 1048576 1048576 32768 1048576 1 1 5 10000000000 1 1 100 200 7 1000000 bP yD0 aW3000,0 aP xD0 "
+            "xX0 bP T50000000 bP yD0 aZ T5000000000 aP xD0 xD0 xD0 bP bR5000")
 
 
 def classify_known(kind, payload, kf):
@@ -133,7 +137,7 @@ def gen_kf1(rng, tier):
 def gen_sockdrop(rng, tier):
     """the socket dispatcher of an endpoint goes away (message channel closed) in mid-transfer"""
     n = 30 if tier == "quick" else 800
-    return [pairgen.gen_case(rng.fork("z%d" % i), profile="sockdrop") for i in range(n)]
+    return [D17_CASE] + [pairgen.gen_case(rng.fork("z%d" % i), profile="sockdrop") for i in range(n)]
 
 
 COMPONENTS = [
@@ -143,7 +147,8 @@ COMPONENTS = [
     # the property text itself, unguarded: failures are expected to fall into the known class KF1
     {"name": "pair_unguarded", "keep": KEEP, "gen": gen_kf1, "nontrivial": nontrivial, "classify": classify,
      "pred": pred_builder("c01_pair_ok")},
-    # message channel closed in mid-transfer: unguarded failures are expected to fall into D17 (or KF1)
+    # message channel closed in mid-transfer (first case: the former witness of the repaired D17): the property text
+    # itself must hold; only the KF1 class (probes are in play) explains a failure
     {"name": "pair_sockdrop", "keep": KEEP, "gen": gen_sockdrop, "nontrivial": nontrivial, "classify": classify,
      "pred": pred_builder("c01_pair_ok")},
 ]
